@@ -19,7 +19,7 @@ type Client struct {
 
 func NewClient(t Transport, c Creds) *Client { return &Client{T: t, Creds: c, Region: "us-east-1"} }
 
-func (c *Client) As(cr Creds) *Client { return &Client{T: c.T, Creds: cr, Region: c.Region} }
+func (c *Client) As(cr Creds) *Client    { return &Client{T: c.T, Creds: cr, Region: c.Region} }
 func (c *Client) On(t Transport) *Client { return &Client{T: t, Creds: c.Creds, Region: c.Region} }
 
 // Opt returns the default signing options for "now".
@@ -136,6 +136,10 @@ type Part struct {
 	PartNumber int    `xml:"PartNumber"`
 	ETag       string `xml:"ETag"`
 	Size       int64  `xml:"Size"`
+	// CsumAlgo / Csum: the part's checksum as stated in a CompleteMultipartUpload document (crc32, crc32c, sha1,
+	// sha256, crc64nvme); not parsed from listings
+	CsumAlgo string `xml:"-"`
+	Csum     string `xml:"-"`
 }
 type ListPartsResult struct {
 	XMLName              xml.Name
@@ -197,7 +201,12 @@ func CompleteXML(parts []Part) []byte {
 	var b strings.Builder
 	b.WriteString("<CompleteMultipartUpload>")
 	for _, p := range parts {
-		fmt.Fprintf(&b, "<Part><ETag>%s</ETag><PartNumber>%d</PartNumber></Part>", xmlEsc(p.ETag), p.PartNumber)
+		cs := ""
+		if p.CsumAlgo != "" {
+			el := map[string]string{"crc32": "ChecksumCRC32", "crc32c": "ChecksumCRC32C", "sha1": "ChecksumSHA1", "sha256": "ChecksumSHA256", "crc64nvme": "ChecksumCRC64NVME"}[p.CsumAlgo]
+			cs = "<" + el + ">" + xmlEsc(p.Csum) + "</" + el + ">"
+		}
+		fmt.Fprintf(&b, "<Part><ETag>%s</ETag><PartNumber>%d</PartNumber>%s</Part>", xmlEsc(p.ETag), p.PartNumber, cs)
 	}
 	b.WriteString("</CompleteMultipartUpload>")
 	return []byte(b.String())
